@@ -1745,3 +1745,96 @@ def posix_join(interp, a, *parts):
         else:
             res = res + "/" + b
     return res
+
+
+# ----------------------------------------------------------------------------
+# small object arrays (lists of datetimes / timedeltas) as used by FileSet.find_closest
+class ObjArr:
+    """ndarray of Python objects with a concrete shape; elements may be symbolic datetimes / timedeltas"""
+    __pyvc_symbolic__ = True
+    __array_priority__ = 5000
+
+    def __init__(self, data):
+        self.data = data              # nested lists
+        self.shape = np.shape(np.empty(_shape_of_nested(data)))
+
+    def _map(self, f, other=None):
+        def rec(x, y=None):
+            if isinstance(x, list):
+                return [rec(a, (y[i] if isinstance(y, list) else y)) for i, a in enumerate(x)]
+            return f(x, y)
+        return ObjArr(rec(self.data, other.data if isinstance(other, ObjArr) else other))
+
+    def __sub__(self, o):
+        return self._map(lambda a, b: a - b, o)
+
+    def __rsub__(self, o):
+        return self._map(lambda a, b: b - a, o)
+
+    def __abs__(self):
+        return self._map(lambda a, b: abs(a))
+
+    def __getitem__(self, k):
+        r = self.data[k]
+        return ObjArr(r) if isinstance(r, list) else r
+
+
+def _shape_of_nested(d):
+    s = []
+    while isinstance(d, list):
+        s.append(len(d))
+        d = d[0] if d else None
+    return tuple(s)
+
+
+_old_asarray = np_asarray
+
+
+@model(np.asarray, np.array)
+def np_asarray2(interp, v, *a, **k):
+    if isinstance(v, list) and v and all(isinstance(r, (list, tuple)) for r in v) and \
+            any(isinstance(x, (_timesym.SDateTime, _timesym.STimedelta)) for r in v for x in r):
+        return ObjArr([list(r) for r in v])
+    return _old_asarray(interp, v, *a, **k)
+
+
+def _fork_min(vals):
+    """(index, value) of the minimum with first-occurrence tie breaking, forking on symbolic comparisons"""
+    bi, bv = 0, vals[0]
+    for i in range(1, len(vals)):
+        if vals[i] < bv:              # Sym -> bool() forks the path
+            bi, bv = i, vals[i]
+    return bi, bv
+
+
+_old_min_model = _MODELS.get(np.min)
+
+
+@model(np.min, np.amin)
+def np_min_obj(interp, a, axis=None, **k):
+    if isinstance(a, ObjArr):
+        if axis == 1 and len(a.shape) == 2:
+            return ObjArr([_fork_min(row)[1] for row in a.data])
+        if axis is None and len(a.shape) == 1:
+            return _fork_min(a.data)[1]
+        raise OutsideSubset("np.min of an object array along axis %r" % (axis,))
+    if _old_min_model is not None:
+        return _old_min_model(interp, a, axis, **k) if axis is not None else _old_min_model(interp, a, **k)
+    return np.min(a, axis=axis, **k)
+
+
+@model(np.argmin)
+def np_argmin_obj(interp, a, axis=None, **k):
+    if isinstance(a, ObjArr) and len(a.shape) == 1:
+        return _fork_min(a.data)[0]
+    if deep_sym(a):
+        raise OutsideSubset("np.argmin of a symbolic array")
+    return np.argmin(a, axis=axis, **k)
+
+
+_old_abs = np_abs
+
+
+@model(np.abs, np.absolute, builtins.abs)
+def np_abs2(interp, x):
+    return abs(x)
